@@ -36,6 +36,10 @@ from rtok import tokenize, norm, norm_text, match_close, Tok  # noqa: E402
 VERUS_MODS = {'open', 'closed', 'spec', 'proof', 'exec', 'uninterp', 'broadcast', 'tracked', 'ghost', 'axiom'}
 
 
+PRIMS = {'u8', 'u16', 'u32', 'u64', 'u128', 'usize', 'i8', 'i16', 'i32', 'i64', 'i128', 'isize', 'bool', 'str', 'char',
+         'f32', 'f64'}
+
+
 class AnchorLost(Exception):
     pass
 
@@ -121,6 +125,8 @@ def render(toks, src=None):
                 gap = src[prev.end:t.start]
                 if '//' in gap or '/*' in gap:
                     gap = '\n' + ' ' * 8 if '\n' in gap else ' '
+                elif gap.strip():
+                    gap = ' '   # tokens were dropped in between (a rewrite): never re-emit their text
                 out.append(gap if gap else '')
             elif prev.text in (';', '{', '}') or (t.text == '}' and prev.text != '{'):
                 out.append('\n        ')
@@ -281,7 +287,7 @@ class MacroArm:
                     and t.text != '_':
                 prev = b[i - 1].text if i > 0 else ''
                 nxt = b[i + 1].text if i + 1 < len(b) else ''
-                if prev not in ('.', '::', '$') and nxt not in ('::', '!', '('):
+                if prev not in ('.', '::', '$', 'as') and nxt not in ('::', '!', '(') and t.text not in PRIMS:
                     # macro-local binding or reference to one: hygiene rename
                     out.append(T('ident', t.text + '__m', t.line))
                     renamed.add(t.text)
@@ -784,8 +790,8 @@ class Weaver:
         where = f'{rel} :: {container} :: {name}'
         log = []
         has_body = it.body_lo >= 0
-        sig = rtok.strip_attrs(toks[it.lo:(it.body_lo if has_body else it.hi)])
-        sig = rw_r9(sig, log, where)
+        sig = rw_r9(toks[it.lo:(it.body_lo if has_body else it.hi)], log, where)
+        sig = rtok.strip_attrs(sig)
         log.append({'rule': 'R1', 'what': 'doc comments / attributes on the item dropped', 'where': where})
         parts = split_signature(sig)
         sync = 'sync' in d.flags
